@@ -3,6 +3,7 @@ package drv
 import (
 	"fmt"
 	"math/rand"
+	"net"
 	"net/http"
 	"net/http/httptest"
 	"runtime"
@@ -47,6 +48,38 @@ func MultiConn(a Args) {
 			polls++
 		}
 	}()
+	if a.Mode == "errpath" && !text {
+		// connections that die in the middle of a request: a quiet get's header and only a part of its key,
+		// a set's header and a part of its value - error paths of the parser that touch pooled objects
+		for t := 0; t < 2; t++ {
+			pwg.Add(1)
+			go func(t int) {
+				defer pwg.Done()
+				rng := rand.New(rand.NewSource(a.Seed*31 + int64(t)))
+				for {
+					select {
+					case <-stop:
+						return
+					default:
+					}
+					c, err := net.Dial("unix", st.Socks[ports[rng.Intn(len(ports))]])
+					if err != nil {
+						time.Sleep(time.Millisecond)
+						continue
+					}
+					var frame []byte
+					if rng.Intn(2) == 0 {
+						frame = wire.EncodeBinary(wire.Command{Op: "get", Keys: [][]byte{[]byte("truncated-key")}, Quiet: []bool{true}, Opaque: 9})
+					} else {
+						frame = wire.EncodeBinary(wire.Command{Op: "set", Keys: [][]byte{[]byte("truncated-key")}, Data: []byte("0123456789"), Opaque: 9})
+					}
+					c.Write(frame[:24+rng.Intn(len(frame)-24)])
+					c.Close()
+					time.Sleep(time.Duration(rng.Intn(300)) * time.Microsecond)
+				}
+			}(t)
+		}
+	}
 	var wg sync.WaitGroup
 	var mu sync.Mutex
 	t0 := time.Now()
